@@ -101,6 +101,38 @@ fn feed(rng: &mut SmallRng, make: &dyn Fn(&mut SmallRng) -> Vec<u8>) {
     let _ = rng;
 }
 
+/// Long runs (tens of thousands of events, so that the ring indices wrap): the queue-level
+/// recording is switched off after construction, and whenever the device's own books say the
+/// queue is quiescent - nothing pending, every buffer back at the device, every delivered event
+/// handed to the caller - a marker is written at which the device-level trace may be cut.
+fn long_run(p: &EvqParams) -> bool {
+    p.events >= 60_000
+}
+fn quiescent_marker(p: &EvqParams, sc_n: usize, cap: usize, q: u16, got_total: usize, since: &mut usize) {
+    if !long_run(p) {
+        return;
+    }
+    *since += 1;
+    if *since < 400 {
+        return;
+    }
+    let quiet = with_engine(|e| {
+        if !e.pers_mut::<EvPers>().pending.is_empty() {
+            return false;
+        }
+        e.run(false);
+        let pe = e.pers_mut::<EvPers>();
+        pe.pending.is_empty() && pe.taken.len() == sc_n && pe.delivered == got_total
+    });
+    if quiet {
+        *since = 0;
+        dev(json!({"e":"EqWarmReset","sc":SC.with(|s| s.borrow().clone()),"n":sc_n,"cap":cap,"q":q}));
+    }
+}
+thread_local! {
+    static SC: std::cell::RefCell<String> = const { std::cell::RefCell::new(String::new()) };
+}
+
 fn drive_owning<T: Transport, const N: usize, const B: usize>(mut t: T, p: &EvqParams, rng: &mut SmallRng) -> String {
     dev(json!({"e":"Call","op":"new"}));
     let neg = p.offered & ((1 << 28) | (1 << 29) | (1 << 32) | (1 << 33));
@@ -117,6 +149,8 @@ fn drive_owning<T: Transport, const N: usize, const B: usize>(mut t: T, p: &EvqP
     };
     t.finish_init();
     dev(json!({"e":"Ret","got":false}));
+    with_world(|w| w.muted = long_run(p));
+    let (mut got_total, mut since) = (0usize, 0usize);
     let mut polls = 0;
     while with_engine(|e| e.pers_mut::<EvPers>().delivered) < p.events || polls < 10 {
         polls += 1;
@@ -144,9 +178,10 @@ fn drive_owning<T: Transport, const N: usize, const B: usize>(mut t: T, p: &EvqP
         });
         let _ = r;
         match got {
-            Some((len, dg)) => dev(json!({"e":"Ret","got":true,"len":len,"dg":dg})),
+            Some((len, dg)) => { got_total += 1; dev(json!({"e":"Ret","got":true,"len":len,"dg":dg})) }
             None => dev(json!({"e":"Ret","got":false})),
         }
+        quiescent_marker(p, N, B, 0, got_total, &mut since);
     }
     dev(json!({"e":"Drop"}));
     drop(oq);
@@ -161,6 +196,8 @@ fn drive_input<T: Transport>(t: T, p: &EvqParams, rng: &mut SmallRng) -> String 
         Err(e) => return format!("{:?}", e),
     };
     dev(json!({"e":"Ret","got":false}));
+    with_world(|w| w.muted = long_run(p));
+    let (mut got_total, mut since) = (0usize, 0usize);
     let mut polls = 0;
     while with_engine(|e| e.pers_mut::<EvPers>().delivered) < p.events || polls < 10 {
         polls += 1;
@@ -181,10 +218,12 @@ fn drive_input<T: Transport>(t: T, p: &EvqParams, rng: &mut SmallRng) -> String 
                 b.extend(ev.event_type.to_le_bytes());
                 b.extend(ev.code.to_le_bytes());
                 b.extend(ev.value.to_le_bytes());
+                got_total += 1;
                 dev(json!({"e":"Ret","got":true,"len":8,"dg":fnv64(&b)}));
             }
             None => dev(json!({"e":"Ret","got":false})),
         }
+        quiescent_marker(p, 32, 8, 0, got_total, &mut since);
     }
     dev(json!({"e":"Drop"}));
     drop(inp);
@@ -199,6 +238,8 @@ fn drive_sound<T: Transport>(t: T, p: &EvqParams, rng: &mut SmallRng) -> String 
         Err(e) => return format!("{:?}", e),
     };
     dev(json!({"e":"Ret","got":false}));
+    with_world(|w| w.muted = long_run(p));
+    let (mut got_total, mut since) = (0usize, 0usize);
     let mut polls = 0;
     while with_engine(|e| e.pers_mut::<EvPers>().delivered) < p.events || polls < 10 {
         polls += 1;
@@ -224,11 +265,13 @@ fn drive_sound<T: Transport>(t: T, p: &EvqParams, rng: &mut SmallRng) -> String 
                 };
                 let mut b = code.to_le_bytes().to_vec();
                 b.extend(n.data().to_le_bytes());
+                got_total += 1;
                 dev(json!({"e":"Ret","got":true,"len":8,"dg":fnv64(&b)}));
             }
             Ok(None) => dev(json!({"e":"Ret","got":false})),
             Err(e) => dev(json!({"e":"Ret","got":false,"err":format!("{:?}", e)})),
         }
+        quiescent_marker(p, 32, 8, 1, got_total, &mut since);
     }
     dev(json!({"e":"Drop"}));
     drop(snd);
@@ -251,6 +294,7 @@ pub fn run(p: &EvqParams, sc: &str) -> (Vec<Vec<String>>, Value) {
     };
     engine::install(Box::new(EvPers { q, pending: VecDeque::new(), taken: vec![], delivered: 0 }), policy_of(&p.policy), p.seed ^ 0x33, true);
     let t = tmake::make(&p.transport, zoo_kind, p.offered, p.legacy, 32768, crate::zoo::config_space(zoo_kind));
+    SC.with(|s| *s.borrow_mut() = sc.to_string());
     with_world(|w| {
         w.trace.clear();
         w.dev(json!({"e":"EqReset","sc":sc,"n":n,"cap":cap,"q":q}));
@@ -274,7 +318,8 @@ pub fn run(p: &EvqParams, sc: &str) -> (Vec<Vec<String>>, Value) {
     };
     let segs = queue_segments(sc);
     engine::uninstall();
-    let keep = ["EqReset", "Call", "Ret", "DevEvent", "QAdd", "QPop", "Panic", "Stuck", "Drop"];
+    with_world(|w| w.muted = false);
+    let keep = ["EqReset", "EqWarmReset", "Call", "Ret", "DevEvent", "QAdd", "QPop", "Panic", "Stuck", "Drop"];
     let dlines: Vec<String> = with_world(|w| {
         let l = w.d_lines(&[]).into_iter().filter(|l| keep.iter().any(|k| l.contains(&format!("\"e\":\"{}\"", k)))).collect();
         w.trace.clear();
@@ -305,6 +350,17 @@ pub fn all_params(thorough: bool, seed: u64) -> Vec<EvqParams> {
                 }
             }
         }
+    }
+    // far more events than a 16-bit ring index counts: the used / available indices wrap once
+    let longs: &[(&str, &str, u64)] = if thorough {
+        &[("owning2x16", "model", 0), ("owning8x16", "mmio", 1 << 29), ("input", "pci", (1 << 28) | (1 << 29)), ("sound", "model", 1 << 28), ("owning4x64", "mmio", 0)]
+    } else {
+        &[("owning2x16", "model", 1 << 29), ("input", "mmio", 1 << 28)]
+    };
+    for (kind, transport, feat) in longs {
+        s += 1;
+        let transport = tmake::TRANSPORTS.iter().find(|t| t.starts_with(transport)).copied().unwrap_or(tmake::TRANSPORTS[0]);
+        v.push(EvqParams { transport: transport.into(), legacy: false, offered: feat | (1 << 32), policy: "poll".into(), kind: (*kind).into(), events: 66_500, seed: s });
     }
     v
 }
